@@ -232,3 +232,7 @@ def run(ctx):
     with ctx.rule("C01.R10", "T1+T7", "every frame is addressed with the lane it belongs to (the sender's lane name is set per frame, for the lane of that frame)", floor=15) as r:
         uplinks.frame_lane_name(r, ctx)
 
+    # a change is published only if the item it touched is collected as dirty on every path of run_handler, including the paths on which a
+    # consequence handler fails and the agent carries on (C06.R1)
+    from rules import C06 as _C06
+    ctx.borrow(_C06, {"C06.R1": ("C01.R11", "every item a handler step modified is collected for writing, also when the handlers it triggers fail (C06.R1)")})
